@@ -28,6 +28,7 @@ def run(ctx, rep):
     compiler_rules.rule_memo_keys(ctx, rep, "C05-R12")
     compiler_rules.rule_function_declarations_first(ctx, rep, "C05-R13")
     compiler_rules.rule_var_without_initialiser_stores_nothing(ctx, rep, "C05-R14")
+    compiler_rules.rule_declared_vars_registered_first(ctx, rep, "C05-R15")
     rep.undecided += [
         "equality of the observable log with ECMAScript's for all programs (needs a reference semantics and execution)",
         "correctness among equally deep jump targets beyond the placement rule C05-R2",
